@@ -226,6 +226,8 @@ impl Adf {
             .count();
         let mut new_interpretation: Vec<Term> = interpretation.into();
         loop {
+            #[cfg(feature = "verif_hooks")]
+            crate::verif::tick();
             let curr_interpretation = new_interpretation.clone();
             let old_t_vals = t_vals;
             for ac in new_interpretation
@@ -506,6 +508,8 @@ impl Adf {
         H: Fn(&Self, (Var, Term), (Var, Term), &[Term]) -> std::cmp::Ordering + Copy,
     {
         log::debug!("two_val_model_recursion_depth: {}/{}", depth, interpr.len());
+        #[cfg(feature = "verif_hooks")]
+        crate::verif::tick();
         if let Some((idx, ac)) = interpr
             .iter()
             .enumerate()
@@ -527,6 +531,18 @@ impl Adf {
                 ac,
                 check_models
             );
+            #[cfg(feature = "verif_hooks")]
+            crate::verif::emit(crate::verif::Event::CountBranch {
+                depth,
+                var: idx,
+                goal: check_models,
+                cubes: self
+                    .bdd
+                    .interpretations(*ac, check_models, Var(idx), &[], &[])
+                    .len(),
+            });
+            #[cfg(feature = "verif_hooks")]
+            let mut verif_position = 0usize;
             let _ = self // return value can be ignored, but must be catched
                 .bdd
                 .interpretations(*ac, check_models, Var(idx), &[], &[])
@@ -552,6 +568,14 @@ impl Adf {
                             new_int[var.value()] = Term::TOP;
                             Ok(())
                         }));
+                    #[cfg(feature = "verif_hooks")]
+                    {
+                        crate::verif::emit(crate::verif::Event::CountCube {
+                            position: verif_position,
+                            consistent: res.is_ok(),
+                        });
+                        verif_position += 1;
+                    }
                     if res.is_ok() {
                         new_int[idx] = if check_models { Term::TOP } else { Term::BOT };
                         let upd_int = self.update_interpretation_fixpoint(&new_int);
@@ -616,6 +640,8 @@ impl Adf {
     fn update_interpretation_fixpoint(&mut self, interpretation: &[Term]) -> Vec<Term> {
         let mut cur_int = interpretation.to_vec();
         loop {
+            #[cfg(feature = "verif_hooks")]
+            crate::verif::tick();
             let new_int = self.update_interpretation(interpretation);
             if cur_int == new_int {
                 return cur_int;
@@ -635,6 +661,8 @@ impl Adf {
         let mut cur_int = interpretation.to_vec();
         *update = false;
         loop {
+            #[cfg(feature = "verif_hooks")]
+            crate::verif::tick();
             let new_int = self.update_interpretation(interpretation);
             if cur_int == new_int {
                 return cur_int;
@@ -839,16 +867,36 @@ impl Adf {
 
         log::debug!("start learning loop");
         loop {
+            #[cfg(feature = "verif_hooks")]
+            {
+                crate::verif::tick();
+                crate::verif::emit(crate::verif::Event::LoopTop {
+                    stack_len: stack.len(),
+                    choice_entries: stack.iter().filter(|(choice, _)| *choice).count(),
+                    history_len: interpr_history.len(),
+                });
+            }
             log::trace!("interpr: {:?}", cur_interpr);
             log::trace!("choice: {}", choice);
             if choice {
                 choice = false;
                 if let Some((var, term)) = heuristic(&*self, &cur_interpr) {
                     log::trace!("choose {}->{}", var, term.is_true());
+                    #[cfg(feature = "verif_hooks")]
+                    crate::verif::emit(crate::verif::Event::Choice {
+                        var: var.value(),
+                        value: term.is_true(),
+                        was_decided: cur_interpr
+                            .get(var.value())
+                            .map(|t| t.is_truth_value())
+                            .unwrap_or(false),
+                    });
                     interpr_history.push(cur_interpr.to_vec());
                     cur_interpr[var.value()] = term;
                     stack.push((true, cur_interpr.as_slice().into()));
                 } else {
+                    #[cfg(feature = "verif_hooks")]
+                    crate::verif::emit(crate::verif::Event::NoChoice);
                     backtrack = true;
                 }
             }
@@ -859,9 +907,18 @@ impl Adf {
                 if stack.is_empty() {
                     break;
                 }
+                #[cfg(feature = "verif_hooks")]
+                let mut verif_learned = 0usize;
+                #[cfg(feature = "verif_hooks")]
+                let mut verif_choice_found = false;
                 while let Some((choice, ng)) = stack.pop() {
                     log::trace!("adding ng: {:?}", ng);
                     ng_store.add_ng(ng);
+                    #[cfg(feature = "verif_hooks")]
+                    {
+                        verif_learned += 1;
+                        verif_choice_found = choice;
+                    }
 
                     if choice {
                         cur_interpr = interpr_history.pop().expect("both stacks (interpr_history and `stack`) should always be synchronous");
@@ -872,6 +929,11 @@ impl Adf {
                         break;
                     }
                 }
+                #[cfg(feature = "verif_hooks")]
+                crate::verif::emit(crate::verif::Event::Backtrack {
+                    learned: verif_learned,
+                    choice_found: verif_choice_found,
+                });
             }
             match ng_store.conclusion_closure(&cur_interpr) {
                 crate::nogoods::ClosureResult::Update(new_int) => {
@@ -885,6 +947,8 @@ impl Adf {
                 }
                 crate::nogoods::ClosureResult::Inconsistent => {
                     log::trace!("inconsistency");
+                    #[cfg(feature = "verif_hooks")]
+                    crate::verif::emit(crate::verif::Event::NogoodConflict);
                     backtrack = true;
                     continue;
                 }
@@ -904,6 +968,8 @@ impl Adf {
                 })
             {
                 log::trace!("ac_inconsistency");
+                #[cfg(feature = "verif_hooks")]
+                crate::verif::emit(crate::verif::Event::AcConflict);
                 backtrack = true;
                 continue;
             }
@@ -918,6 +984,8 @@ impl Adf {
                     choice = true;
                 } else if stability_check(self, &cur_interpr) {
                     // stable model found
+                    #[cfg(feature = "verif_hooks")]
+                    crate::verif::emit(crate::verif::Event::TwoValued { accepted: true });
                     stack.push((false, cur_interpr.as_slice().into()));
                     s.send(cur_interpr.clone())
                         .expect("Sender should accept results");
@@ -925,6 +993,8 @@ impl Adf {
                 } else {
                     // not stable
                     log::trace!("2 val not stable");
+                    #[cfg(feature = "verif_hooks")]
+                    crate::verif::emit(crate::verif::Event::TwoValued { accepted: false });
                     stack.push((false, cur_interpr.as_slice().into()));
                     backtrack = true;
                 }
